@@ -65,6 +65,7 @@ FLAV_FLAGS = {
     "san": ["-O1", "-g", "-fno-omit-frame-pointer", "-fsanitize=address,undefined", "-fno-sanitize-recover=all"],
     "tsan": ["-O1", "-g", "-fno-omit-frame-pointer", "-fsanitize=thread"],
     "plain": ["-O1", "-g"],
+    "cov": ["-O0", "-g"],          # the library is instrumented (gcov), the harness need not be
 }
 
 
